@@ -562,6 +562,9 @@ def run_check(modname, argv=None):
 
     # ---- 1. Lean: build, source scan, axiom audit -------------------------------------------------
     theorems = list(getattr(mod, "THEOREMS", []))
+    # auxiliary theorems (definitional unfoldings, encoding lemmas, model-internal glue): audited like the others,
+    # but not counted as proof obligations of the property (coverage.auxiliary_theorems)
+    aux_theorems = [t for t in getattr(mod, "AUX_THEOREMS", []) if t not in theorems]
     lean_modules = list(getattr(mod, "LEAN_MODULES", []))
     lean_sources = list(getattr(mod, "LEAN_SOURCES", []))
     # bridge theorems (agreement of the independent transcriptions of the same Python code in different property
@@ -587,8 +590,8 @@ def run_check(modname, argv=None):
             proof_ok = False
             proof_problems.append({"what": "forbidden construct in Lean sources", "hits": hits})
         if build_ok:
-            axioms, audit_log = audit_axioms(getattr(mod, "EVIDENCE_NAME", pid), lean_modules, theorems)
-            for t in theorems:
+            axioms, audit_log = audit_axioms(getattr(mod, "EVIDENCE_NAME", pid), lean_modules, theorems + aux_theorems)
+            for t in theorems + aux_theorems:
                 ax = axioms.get(t)
                 if ax is None:
                     proof_ok = False
@@ -777,6 +780,7 @@ def run_check(modname, argv=None):
             "obligations": len(theorems),
             "discharged": discharged,
             "theorems": {t: axioms.get(t) for t in theorems},
+            "auxiliary_theorems": {t: axioms.get(t) for t in aux_theorems},
             "checker_cmd": "lake build " + " ".join(lean_modules) + " && lean <generated #print axioms file> (harness/common.py: audit_axioms)",
             "trusted_base": list(getattr(mod, "TRUSTED", [])),
             "evaluations": len(cases),
